@@ -122,10 +122,26 @@ impl ParserState {
             }
             if let Some(arr) = self.context.pop() {
                 if let Some(val_list) = self.context.last_mut() {
+                    // a member is a memberAttrName followed by its value and any additional values
                     let mut map: BTreeMap<String, IppValue> = BTreeMap::new();
-                    for idx in (0..arr.len()).step_by(2) {
-                        if let (Some(IppValue::MemberAttrName(k)), Some(v)) = (arr.get(idx), arr.get(idx + 1)) {
-                            map.insert(k.to_string(), v.clone());
+                    let mut name: Option<String> = None;
+                    let mut values: Vec<IppValue> = Vec::new();
+                    for v in arr {
+                        if let IppValue::MemberAttrName(k) = v {
+                            if let Some(n) = name.take() {
+                                if !values.is_empty() {
+                                    map.insert(n, list_or_value(values));
+                                }
+                            }
+                            name = Some(k);
+                            values = Vec::new();
+                        } else if name.is_some() {
+                            values.push(v);
+                        }
+                    }
+                    if let Some(n) = name {
+                        if !values.is_empty() {
+                            map.insert(n, list_or_value(values));
                         }
                     }
                     val_list.push(IppValue::Collection(map));
